@@ -548,7 +548,8 @@ class Scalar(Parametrized):
 
     def dagger(self):
         return self if self._dagger is None\
-            else Scalar(self.array[0].conjugate())
+            else Scalar(self.array[0].conjugate(),
+                        name=self._name, is_mixed=self.is_mixed)
 
 
 class MixedScalar(Scalar):
